@@ -903,10 +903,22 @@ def drains(prog, f):
         if val and atom.get("k") == "mem" and (atom.get("t") or "") in ("bool", "_Bool") and any(
                 G.dominated(f, (c.b, c.i), {bid: k}) for c in closed_fin):
             flags.add(last_field(atom))
-    for c in f.calls(("nni_list_first",)):
-        lf = last_field(f.expand(c.node["args"][0])) if c.node["args"] else None
-        if lf:
-            lists.add(lf)
+    # the lists it empties: v = nni_list_first(&x->L) where v is what gets completed with NNG_ECLOSED (a list of connections
+    # or of other records that the same function merely looks at is not a list of parked operations)
+    finished = set()
+    for c in closed_fin:
+        a0 = f.expand(c.node["args"][0]) if c.node["args"] else None
+        while a0 is not None and a0.get("k") == "cast":
+            a0 = f.expand(a0["e"])
+        if a0 is not None and a0.get("k") == "var":
+            finished.add(a0["n"])
+    for v in finished:
+        for _, rhs in G.var_defs(f, v):
+            for m in walk(rhs) if rhs is not None else ():
+                if m.get("k") == "call" and m.get("fn") == "nni_list_first" and m.get("args"):
+                    lf = last_field(f.expand(m["args"][0]))
+                    if lf:
+                        lists.add(lf)
     for t in f.assigns():
         l = t.node["lhs"]
         if l.get("k") != "mem":
@@ -918,14 +930,14 @@ def drains(prog, f):
     return lists, fields, flags
 
 
-def rule_no_park_after_close(ctx):
+def rule_no_park_after_close(ctx, rid="C10.R11", dirs=("/core/", "/sp/"), floor=20):
     from .. import guards as G
-    r = ctx.rule("C10.R11", "T2", "nothing is parked after close: where a close function completes with NNG_ECLOSED the operations parked on "
+    r = ctx.rule(rid, "T2", "nothing is parked after close: where a close function completes with NNG_ECLOSED the operations parked on "
                  "a list or in a field of an object, every other function that parks an operation there first tests, under the "
                  "same lock, a flag that the close function set -- an operation submitted by another thread just after the drain "
-                 "is otherwise parked for good: it never completes and (for the blocking calls) close waits for its reference", floor=20)
+                 "is otherwise parked for good: it never completes and (for the blocking calls) close waits for its reference", floor=floor)
     prog = ctx.prog
-    scope = [f for f in prog.functions if not f.cfg_failed and ("/core/" in "/" + f.file or "/sp/" in "/" + f.file)
+    scope = [f for f in prog.functions if not f.cfg_failed and any(d in "/" + f.file for d in dirs)
              and not f.file.endswith("_test.c")]
     callers = prog.callers()
     byfile = defaultdict(list)
@@ -1011,6 +1023,28 @@ def rule_no_park_after_close(ctx):
             for t in h.assigns():
                 l = t.node["lhs"]
                 if l.get("k") == "mem" and last_field(l) in fields and not is_null(h.expand(t.node["rhs"])):
+                    # a record this function has just allocated is not yet visible to the close function: the park is
+                    # where the record is published (a list append, checked above)
+                    base = l
+                    while base is not None and base.get("k") in ("mem", "un", "cast", "idx"):
+                        base = h.expand(base.get("b") if base.get("k") in ("mem", "idx") else base.get("e"))
+                    if base is not None and base.get("k") == "var":
+                        rd = G.reaching_defs(h, base["n"], (t.b, t.i))
+                        if rd and all(d is not None and any(m.get("k") == "call" and m.get("fn") in ("nni_zalloc", "nni_alloc")
+                                                             for m in walk(d)) for _, d in rd):
+                            continue
+                    # an operation moved from one drained park place of the same object to another was parked before: if
+                    # the close function had run it would have found it there
+                    rv_ = h.expand(t.node["rhs"])
+                    while rv_ is not None and rv_.get("k") == "cast":
+                        rv_ = h.expand(rv_["e"])
+                    if rv_ is not None and rv_.get("k") == "var":
+                        rd = G.reaching_defs(h, rv_["n"], (t.b, t.i))
+                        if rd and all(d is not None and any(
+                                m.get("k") == "call" and m.get("fn") == "nni_list_first" and m.get("args") and
+                                last_field(h.expand(m["args"][0])) in lists for m in walk(d)) for _, d in rd):
+                            r.ob(h, "%s line %s: moved from a list that %s drains too (not a new submission)" % (last_field(l), t.line, g.name))
+                            continue
                     parks.append(((t.b, t.i), t.line, last_field(l)))
             for pos, line, lf in parks:
                 if (h.name, line, lf) in done:
@@ -1033,7 +1067,7 @@ def rule_no_park_after_close(ctx):
                              "%s parks an operation in %s at line %s without testing a flag set by %s, which completes everything "
                              "parked there with NNG_ECLOSED: an operation submitted just after that drain stays pending forever"
                              % (h.name, lf, line, g.name))
-    if n < 20:
+    if n < floor:
         raise AnalysisBroken("only %d park sites on drained lists found" % n)
 
 
